@@ -41,7 +41,9 @@ where
 
     let cap_height = params.config.cap_height;
     for cap in commit_phase_merkle_caps {
-        ensure!(cap.height() == cap_height);
+        // Compare lengths rather than calling `MerkleCap::height`, which panics unless the
+        // length is a power of two.
+        ensure!(cap.len() == 1 << cap_height);
     }
 
     for query_round in query_round_proofs {
